@@ -338,6 +338,10 @@ class TraceRun:
         if rec.abort_fired:
             self.probe("abort_seam_fired")
             self.probe("abort_seam_at_" + str(rec.abort_site))
+            for nm in rec.abort_in:
+                self.probe("abort_inside_" + nm.strip("_"))
+            if "add_constraint" in rec.abort_in and rec.abort_site == "add_constraint" and rt.guard is None:
+                pass
         self.final_checks()
         return self
 
